@@ -68,11 +68,21 @@ def normalize_float(number):
     >>> normalize_float('-5d4')
     '-5e4'
     '''
-    norm = re.sub(r'^([-+]?[0-9]*\.[0-9]*[^0])0+$', r'\1', number)
-    if norm[-1] == '.':
-        norm += '0'
-    norm = re.sub(r'^([-+]?([0-9]+(\.[0-9]*)?|[0-9]*\.[0-9]+))([-+][0-9]+)$',
-                  r'\1e\4',
-                  norm)
-    norm = re.sub(r'[eEdD]', 'e', norm)
+    match = re.match(r'^([-+]?)([0-9]*)(?:\.([0-9]*))?'
+                     r'(?:[eEdD]([-+]?[0-9]+)|([-+][0-9]+))?$', number)
+    if match is None:
+        return re.sub(r'[eEdD]', 'e', number)
+    sign, integer, frac, exp, fortran_exp = match.groups()
+    if exp is None:
+        exp = fortran_exp
+    norm = sign + integer
+    if frac is not None:
+        # remove the trailing zeros of the fractional part only (never those
+        # of the exponent), but keep one digit after the decimal point
+        stripped = frac.rstrip('0')
+        if not stripped and (frac or exp is None):
+            stripped = '0'
+        norm += '.' + stripped
+    if exp is not None:
+        norm += 'e' + exp
     return norm
